@@ -152,7 +152,7 @@ def unsubscribe(ctx, prog):
         ("parked waiters (DataLog::remove_waiters_for_id)", r"DataLog::remove_waiters_for_id$", None),
         # a publish earlier in the same read has moved the parked request into Router.notifications already; the
         # end of the handler puts everything in there back on the tracker
-        ("requests woken earlier in this read (Router.notifications)", r"VecDeque::<T, A>::(retain|retain_mut)$", "notifications"),
+        ("requests woken earlier in this read (Router.notifications)", r"VecDeque::<T, A>::(retain|retain_mut|drain)$", "notifications"),
     ]
     for what, cre, recv in need:
         hits = []
